@@ -281,3 +281,29 @@ Theorem C01_keywords_field_roundtrip_partial : forall depth ks n post o e a fr k
              (Ok ks, s') /\ rest s' = post /\ stk s' = fr :: k.
 Proof. exact keywords_field_roundtrip. Qed.
 Print Assumptions C01_keywords_field_roundtrip_partial.
+
+(* the DBLINK and KEYWORDS sub-parsers of the GenBank reader as they are run
+   (p_dblink, p_keywords: the functions the record parser dispatches to, error
+   wrappers included): on the field as GenBank.String writes it they return
+   the accumulator with exactly that field set, no error, and stop where the
+   next field begins *)
+Theorem C01_dblink_subparser_roundtrip_partial : forall depth a kv ps post o e ap fr k,
+  zlen n_DBLINK <= depth -> f_dblink (a_fields a) = [] ->
+  Forall pair_ok (kv :: ps) -> NoDup (map fst (kv :: ps)) ->
+  is_prefix (repeat_byte 32 depth) post = false ->
+  exists s', p_dblink depth a
+               (mkst (n_DBLINK ++ repeat_byte 32 (depth - zlen n_DBLINK) ++ dblink_text depth (kv :: ps) ++ post) o e ap (fr :: k)) =
+             (Ok (upd_fields a (set_dblink (a_fields a) (kv :: ps)), None), s') /\ rest s' = post /\ stk s' = fr :: k.
+Proof. exact p_dblink_roundtrip. Qed.
+Print Assumptions C01_dblink_subparser_roundtrip_partial.
+
+Theorem C01_keywords_subparser_roundtrip_partial : forall depth a ks n post o e ap fr k,
+  zlen n_KEYWORDS <= depth -> Forall nosep ks -> join_semi ks <> [] ->
+  Forall (fun c => c <> 10) (join_semi ks ++ [46]) -> no_cr (join_semi ks ++ [46]) ->
+  is_prefix (repeat_byte 32 depth) post = false ->
+  exists s', p_keywords depth a
+               (mkst (n_KEYWORDS ++ repeat_byte 32 (depth - zlen n_KEYWORDS) ++
+                      (add_prefix (wrap_space (join_semi ks ++ [46]) n) (repeat_byte 32 depth) ++ [10]) ++ post) o e ap (fr :: k)) =
+             (Ok (upd_fields a (set_keywords (a_fields a) ks), None), s') /\ rest s' = post /\ stk s' = fr :: k.
+Proof. exact p_keywords_roundtrip. Qed.
+Print Assumptions C01_keywords_subparser_roundtrip_partial.
